@@ -1,7 +1,10 @@
 (* C04 — Every reachable map obeys the published storage layout.
-   Statements only; proofs in MapProofs.v, UpdateProofs.v, HistoryProofs.v, LayoutProofs.v. *)
+   Statements only; proofs in MapProofs.v, UpdateProofs.v, HistoryProofs.v, LayoutProofs.v and, for the
+   producers other than the explicit-pixel update, OpsProofs.v, RebuildProofs.v, FracdetProofs.v,
+   PartialProofs.v, RangeRefine.v, BoolRefine.v and MultiRefine.v. *)
 From Coq Require Import QArith.
-From HS Require Import Prelude Cov Map Spec Params AtFold MapProofs UpdateProofs HistoryProofs LayoutProofs Exec ExecProofs.
+From HS Require Import Prelude Cov Map Spec Ops Spec2 Params AtFold MapProofs UpdateProofs HistoryProofs LayoutProofs
+     OpsProofs RebuildProofs FracdetProofs PartialProofs RangeRefine BoolRefine MultiRefine Exec ExecProofs.
 Open Scope Z_scope.
 
 Section C04.
@@ -66,6 +69,84 @@ Proof. exact (b2c_block P). Qed.
 
 End C04.
 
+(* ---- every other producer of a map keeps the invariant (hence, by
+   C04_wf_implies_published_layout, the published layout) ---- *)
+Theorem C04_scalar_operator_wf :
+  forall (P : params) (g : p_V P -> p_V P) (m : smap (p_V P)),
+    wf P m -> wf P (map_valid (p_V P) (p_valid P) g m).
+Proof. exact map_valid_wf. Qed.
+
+Theorem C04_invert_and_constants_wf :
+  forall (P : params) (g : p_V P -> p_V P) (m : smap (p_V P)), wf P m -> wf P (tail_map (p_V P) g m).
+Proof. exact tail_map_wf. Qed.
+
+Theorem C04_astype_wf :
+  forall (P P' : params) (conv : p_V P -> p_V P') (nb : p_V P') (m : smap (p_V P)),
+    wf P m -> p_valid P' nb = false -> wf P' (astype (p_V P) (p_V P') (p_valid P) conv nb m).
+Proof. exact astype_wf. Qed.
+
+Theorem C04_apply_mask_wf :
+  forall (P : params) (bad : Z -> bool) (m m' : smap (p_V P)),
+    wf P m -> apply_mask (p_V P) (p_valid P) (p_dv P) bad m = Some m' -> wf P m'.
+Proof. exact apply_mask_wf. Qed.
+
+Theorem C04_degrade_wf :
+  forall (P P' : params) (red : list (p_V P * p_V P') -> p_V P') (r : Z) (nb : p_V P') (m : smap (p_V P))
+         (wsp : list (p_V P')),
+    wf P m -> 0 < r -> nfine m mod r = 0 -> p_valid P' nb = false ->
+    wf P' (degrade2 (p_V P) (p_V P') red r nb m wsp).
+Proof. exact degrade2_wf. Qed.
+
+Theorem C04_upgrade_wf :
+  forall (P : params) (r : Z) (m : smap (p_V P)), wf P m -> 0 < r -> wf P (upgrade (p_V P) r m).
+Proof. exact upgrade_wf. Qed.
+
+Theorem C04_fracdet_map_wf :
+  forall (P : params) (m : smap (p_V P)) (r : Z),
+    wf P m -> 0 < r -> nfine m mod r = 0 -> wf count_params (fracdet_map P m r).
+Proof. exact fracdet_wf. Qed.
+
+Theorem C04_partial_read_wf :
+  forall (P : params) (m m' : smap (p_V P)) (req : list Z),
+    wf P m -> read_partial (p_V P) m req = Some m' -> wf P m'.
+Proof. intros P m m' req W E. exact (proj1 (read_partial_spec P m m' req W E)). Qed.
+
+Theorem C04_range_update_wf :
+  forall (P : params) o (value : p_V P) (m : smap (p_V P)) (na : bool) (rows : list (Z * Z)),
+    wf P m -> (forall r, In r rows -> row_ok P m r) ->
+    wf P (update_ranges (p_V P) (p_dv P) (p_vadd P) (p_vor P) (p_vand P) (p_vzero P) (p_is_sent P)
+                        (p_sent_nonzero P) m o rows value na).
+Proof. intros P o value m na rows W H. exact (ranges_wf P o value m W na rows H). Qed.
+
+Theorem C04_boolean_map_operator_in_place_wf :
+  forall (P : params) (f : p_V P -> p_V P -> p_V P) (a b : smap (p_V P)),
+    wf P a -> wf P b -> nfine b = nfine a -> ncov (p_V P) b = ncov (p_V P) a ->
+    wf P (bool_map_op_inplace (p_V P) (p_dv P) f a b).
+Proof. exact inplace_wf. Qed.
+
+Theorem C04_boolean_map_operator_copy_wf :
+  forall (P : params) (f : p_V P -> p_V P -> p_V P) (a b : smap (p_V P)),
+    wf P a -> wf P b -> nfine b = nfine a -> ncov (p_V P) b = ncov (p_V P) a ->
+    forall vfalse, vfalse = blank a -> wf P (bool_map_op_copy (p_V P) vfalse f a b).
+Proof. exact copy_wf. Qed.
+
+Theorem C04_multi_map_operation_wf :
+  forall (P : params) (f : p_V P -> p_V P -> p_V P) (conv : p_V P -> p_V P) (filler sentinel : p_V P)
+         (ff : bool) (vout : p_V P -> bool),
+    vout sentinel = false ->
+    forall ncv nf, 0 <= ncv -> 0 < nf ->
+    forall (union fis : bool) (ms : list (vmap (p_V P))) m',
+      ms <> [] -> (forall vm, In vm ms -> okmap P ncv nf vm) ->
+      (union = true -> ff = false) -> (fis = true -> filler = sentinel) ->
+      apply_operation (p_V P) (p_dv P) f conv filler sentinel fis union ff ms = Some m' ->
+      wf (with_valid P vout) m'.
+Proof.
+  intros P f conv filler sentinel ff vout Hv ncv nf Hn Hf union fis ms m' Hne Hok Hu Hfs E.
+  destruct (apply_operation_refines P f conv filler sentinel ff vout Hv ncv nf Hn Hf union fis ms Hne Hok Hu Hfs)
+    as [m1 [E1 [W1 _]]].
+  rewrite E in E1. injection E1 as <-. exact W1.
+Qed.
+
 Example C04_hypotheses_satisfiable :
   let k := mkk 0 (-5 # 1) 1 in
   let m := x_update k (make_empty cellv 12 4 [(-5 # 1)%Q] (Some [7; 2])) URepl
@@ -81,4 +162,16 @@ Print Assumptions C04_reachable_layout.
 Print Assumptions C04_distinct_cells.
 Print Assumptions C04_block_table_inverts.
 Print Assumptions C04_every_block_owned.
+Print Assumptions C04_scalar_operator_wf.
+Print Assumptions C04_invert_and_constants_wf.
+Print Assumptions C04_astype_wf.
+Print Assumptions C04_apply_mask_wf.
+Print Assumptions C04_degrade_wf.
+Print Assumptions C04_upgrade_wf.
+Print Assumptions C04_fracdet_map_wf.
+Print Assumptions C04_partial_read_wf.
+Print Assumptions C04_range_update_wf.
+Print Assumptions C04_boolean_map_operator_in_place_wf.
+Print Assumptions C04_boolean_map_operator_copy_wf.
+Print Assumptions C04_multi_map_operation_wf.
 Print Assumptions C04_hypotheses_satisfiable.
